@@ -6,6 +6,7 @@ import (
 	"golang.org/x/tools/go/ssa"
 
 	"utilcheck/flow"
+	"utilcheck/pred"
 )
 
 func init() {
@@ -61,4 +62,21 @@ func runC18(e *Env) {
 	e.S.Ok("C18.T1", "(entry points)", "closure", fmt.Sprintf("%d entry points, %d in-repo functions in their call-graph closure scanned for panic sites", len(roots), len(reach)), "")
 	e.S.Floor("C18.T2", 40)
 	e.S.Floor("C18.T3", 5)
+	// the text entry points of the value types enforce the limit through their parser: the bytes they are given
+	// reach the package-level Parser whole and unchanged (the delegation rule of the round-trip properties, its
+	// UnmarshalText half filed here)
+	specs := delegSpecs(e)
+	for _, pkg := range []string{"date", "roman", "sem", "uu"} {
+		if fn := e.Method("C18.entry", pkg, specs[pkg].typ, "UnmarshalText"); fn != nil {
+			ruleUnmarshalDeleg(e, "C18.entry", pkg, fn, "UnmarshalText", specs[pkg].unmarshalRule, map[string]pred.Summary{})
+		}
+	}
+	unitBit, _ := tabConstInt(e, "size", "RuleDisableUnit")
+	if fn := e.Method("C18.entry", "size", "Size", "UnmarshalText"); fn != nil {
+		ruleUnmarshalDeleg(e, "C18.entry", "size", fn, "UnmarshalText", fmt.Sprint(maskedSym("*size.DefaultRule", unitBit)), map[string]pred.Summary{})
+	}
+	if fn := e.Method("C18.entry", "size", "Size", "UnmarshalJSON"); fn != nil {
+		ruleUnmarshalDeleg(e, "C18.entry", "size", fn, "UnmarshalJSON", "*size.DefaultRule", map[string]pred.Summary{})
+	}
+	e.S.Floor("C18.entry", 12)
 }
